@@ -196,6 +196,9 @@ DEFS = {
     "setter under another decorator": "@property\ndef {n}(self): ...\n@passthrough\n@{n}.setter\ndef {n}(self, value): ...",
     "overloaded (typing_extensions)": "@typing_extensions.overload\ndef {n}(x: int) -> int: ...\n@typing_extensions.overload\ndef {n}(x: str, y: int) -> str: ...\ndef {n}(x, y=0): ...",
     "annotated function": "def {n}(self, a: A, b: B = d1, *c: C, e: E = d2, **g: G) -> R: ...",
+    "untyped property with a typed setter": "@property\ndef {n}(self): ...\n@{n}.setter\ndef {n}(self, value: int) -> None: ...",
+    "typed property with a differently typed setter": "@property\ndef {n}(self) -> str: ...\n@{n}.setter\ndef {n}(self, value: int) -> None: ...",
+    "function with a lambda default": "def {n}(self, enc=lambda s, encoding='utf-8', errors='strict': s): ...",
     "overloads without implementation": "@typing.overload\ndef {n}(x: int) -> int: ...\n@typing.overload\ndef {n}(x: str, y: int) -> str: ...",
 }
 
@@ -211,6 +214,7 @@ def _definition_table(prog: Program, ctx: Ctx) -> None:
                    "functions list the parameters CPython binds")
     M = "_griffe.models"
     it = Interp(prog, max_depth=40, max_steps=2_000_000)
+    it.ext_handlers["builtins.compile"] = lambda _i, src, **k: compile(src, "<s>", k.get("mode", "eval"), flags=ast.PyCF_ONLY_AST, dont_inherit=True)
     vf = prog.function("_griffe.agents.visitor.Visitor.visit_functiondef")
     va = prog.function("_griffe.agents.visitor.Visitor.visit_asyncfunctiondef")
 
@@ -258,6 +262,7 @@ def _definition_table(prog: Program, ctx: Ctx) -> None:
             else:
                 entry["setter"] = o.attrs.get("setter") is not None
                 entry["deleter"] = o.attrs.get("deleter") is not None
+                entry["annotation"] = _txt(o.attrs.get("annotation"))
             out[name] = entry
         # signatures still waiting for their implementation (stub-style overloads stay there; implemented ones must have been handed over)
         out["<pending overloads>"] = {k: [[q.attrs["name"] for q in it._iterate(ov.attrs["parameters"])] for ov in v] for k, v in klass.attrs["overloads"].items() if v}
@@ -285,8 +290,11 @@ def _definition_table(prog: Program, ctx: Ctx) -> None:
             ok = got["x"]["parameters"] == want
             detail += f"; CPython binds {want}"
         if ok and is_prop:
+            getter = getattr(raw, "fget", None) or getattr(raw, "func", None)
+            want_ret = getattr(getter, "__annotations__", {}).get("return")
             ok = got["x"]["setter"] == (getattr(raw, "fset", None) is not None) and got["x"]["deleter"] == (getattr(raw, "fdel", None) is not None) \
-                and "property" in got["x"]["labels"]
+                and "property" in got["x"]["labels"] and got["x"]["annotation"] == want_ret
+            detail += f"; the getter's return annotation is {want_ret!r}"
         if ok and dname == "annotated function":
             sig = inspect.signature(raw)
             want_ann = [(q.name, None if q.annotation is inspect.Parameter.empty else q.annotation, None if q.default is inspect.Parameter.empty else q.default)
@@ -295,6 +303,14 @@ def _definition_table(prog: Program, ctx: Ctx) -> None:
             detail += f"; annotations/defaults {got['x']['annotations']} -> {got['x']['returns']}, source {want_ann} -> {sig.return_annotation}"
         if ok and "async" in dname:
             ok = "async" in got["x"]["labels"]
+        if ok and dname == "function with a lambda default":
+            src_default = ast.parse(tmpl.format(n="x")).body[0].args.defaults[0]
+            got_default = got["x"]["annotations"][1][2]
+            try:
+                ok = ast.dump(ast.parse(got_default, mode="eval").body) == ast.dump(src_default)
+            except (SyntaxError, TypeError):
+                ok = False
+            detail += f"; the default is written `{ast.unparse(src_default)}`"
         if ok and dname == "overloaded":
             ok = got["x"]["overloads"] == [["x"], ["x"]]
         if ok and dname == "overloaded (typing_extensions)":
